@@ -59,7 +59,16 @@ type Contract struct {
 	NoInline bool
 	Lock     string // informational
 	AssumePre []string // labels of callee preconditions that are environment assumptions in this function (e.g. conformant traffic)
+	Reveal   map[string]bool // opaque specification functions whose definition this function's proof may use
+	Lemmas   []Lemma // intermediate assertions proved just before the listed calls and assumed afterwards
 	SortLen  int    // sortlen 3: sort.Sort calls in this function sort exactly three elements (checked)
+}
+
+// Lemma: `lemma [label] before F, G: P` - P (over parameters, lets and old state) is proved in the state just before
+// every direct call of F or G in the function body and is then available as an assumption (like an assert statement).
+type Lemma struct {
+	Clause
+	Before []*ssa.Function
 }
 
 func (c *Contract) props() []string {
@@ -101,6 +110,7 @@ type PureFunc struct {
 	Body    ast.Expr // nil for uninterpreted functions
 	Heap    bool     // heap-dependent recursive function (hfunc): uninterpreted symbol over the read components, unfolded at use
 	Reads   []ast.Expr
+	Opaque  bool // hfunc opaque: the definition is only visible in functions whose contract says `reveal name`
 	Src     string
 }
 
@@ -115,7 +125,7 @@ type ContractTable struct {
 	FuncType map[string]*Contract // named function type -> assumed contract of every value of that type
 }
 
-var kwRe = regexp.MustCompile(`^(func|trusted func|iface|pure func|hfunc|ufunc|axiom|requires|ensures|assumes|modifies|loop|invariant|safety|let|letold|noinline|params|lock|sortlen|static|functype|assumepre)\b`)
+var kwRe = regexp.MustCompile(`^(func|trusted func|iface|pure func|hfunc|ufunc|axiom|requires|ensures|assumes|modifies|loop|invariant|safety|let|letold|noinline|params|lock|sortlen|static|functype|assumepre|lemma|reveal)\b`)
 var tagRe = regexp.MustCompile(`^\[([A-Za-z0-9_,.\- ]+)\]\s*`)
 
 type rawLine struct {
@@ -274,12 +284,28 @@ func (p *Program) parseContractFile(pkg *packages.Package, file string) error {
 			if cur != nil {
 				cur.SortLen, _ = strconv.Atoi(rest)
 			}
+		case "reveal":
+			if cur == nil {
+				return fail("reveal outside contract")
+			}
+			if cur.Reveal == nil {
+				cur.Reveal = map[string]bool{}
+			}
+			for _, n := range strings.Split(rest, ",") {
+				cur.Reveal[strings.TrimSpace(n)] = true
+			}
 		case "hfunc":
+			opaque := false
+			if strings.HasPrefix(rest, "opaque ") {
+				opaque = true
+				rest = strings.TrimSpace(strings.TrimPrefix(rest, "opaque "))
+			}
 			pf, err := p.parsePure(pkg, rest, false)
 			if err != nil {
 				return fail("%v", err)
 			}
 			pf.Heap = true
+			pf.Opaque = opaque
 			ct.Pure[pkg.PkgPath+"::"+pf.Name] = pf
 			cur, curLoop = nil, nil
 		case "assumes":
@@ -312,6 +338,33 @@ func (p *Program) parseContractFile(pkg *packages.Package, file string) error {
 				}
 				curLoop.Invs = append(curLoop.Invs, cl)
 			}
+		case "lemma":
+			if cur == nil {
+				return fail("lemma outside contract")
+			}
+			lm := Lemma{}
+			if m := tagRe.FindStringSubmatch(rest); m != nil {
+				// keep the tag for parseClause; find "before ... :" after it
+			}
+			bi := strings.Index(rest, "before ")
+			ci := strings.Index(rest, ": ")
+			if bi < 0 || ci < bi {
+				return fail("lemma needs `before F, G: expr`")
+			}
+			for _, n := range splitTopLevel(rest[bi+len("before "):ci], ",") {
+				fn, err := p.resolveFuncName(pkg.PkgPath, strings.TrimSpace(n))
+				if err != nil {
+					return fail("lemma: %v", err)
+				}
+				lm.Before = append(lm.Before, fn)
+			}
+			rest = rest[:bi] + rest[ci+2:]
+			cl, err := parseClause()
+			if err != nil {
+				return err
+			}
+			lm.Clause = cl
+			cur.Lemmas = append(cur.Lemmas, lm)
 		case "let", "letold":
 			if cur == nil {
 				return fail("let outside contract")
@@ -670,3 +723,4 @@ func cutTopLevel(s, op string) (string, string, bool) {
 	}
 	return "", "", false
 }
+
